@@ -74,14 +74,27 @@ impl DocumentBuilder {
         self.element_builder = Some(ElementBuilder::new(prefix, name));
     }
 
-    fn prefix(&mut self, prefix: &str, namespace_uri: &str, xot: &mut Xot) {
+    fn prefix(
+        &mut self,
+        prefix: &str,
+        namespace_uri: &str,
+        span: Span,
+        xot: &mut Xot,
+    ) -> Result<(), ParseError> {
         let prefix_id = xot.prefix_lookup.get_id_mut(prefix);
         let namespace_id = xot.namespace_lookup.get_id_mut(namespace_uri);
-        self.element_builder
-            .as_mut()
-            .unwrap()
-            .namespaces
-            .push((prefix_id, namespace_id));
+        let namespaces = &mut self.element_builder.as_mut().unwrap().namespaces;
+        // a namespace declaration is an attribute and cannot occur twice
+        if namespaces.iter().any(|(p, _)| *p == prefix_id) {
+            let attr_name = if prefix.is_empty() {
+                "xmlns".to_string()
+            } else {
+                format!("xmlns:{}", prefix)
+            };
+            return Err(ParseError::DuplicateAttribute(attr_name, span));
+        }
+        namespaces.push((prefix_id, namespace_id));
+        Ok(())
     }
 
     fn attribute(
@@ -158,7 +171,7 @@ impl DocumentBuilder {
             self.current_node_id.append(namespace_node, &mut xot.arena);
         }
         // add attribute nodes
-        let mut attribute_spans = Vec::new();
+        let mut attribute_spans: AttributeSpans = Vec::new();
         for attribute_builder in element_builder.attributes {
             let name_id = self.name_id_builder.attribute_name_id(
                 &attribute_builder.prefix,
@@ -687,10 +700,12 @@ impl Xot {
                             // a namespace declaration is an attribute: its value
                             // can contain references and is normalized
                             let uri = parse_attribute(value.as_str().into(), value.start())?;
-                            builder.prefix(local.as_str(), &uri, self);
+                            let span = Span::from_prefix_name(prefix, local);
+                            builder.prefix(local.as_str(), &uri, span, self)?;
                         } else if local.as_str() == "xmlns" {
                             let uri = parse_attribute(value.as_str().into(), value.start())?;
-                            builder.prefix("", &uri, self);
+                            let span = Span::from_prefix_name(prefix, local);
+                            builder.prefix("", &uri, span, self)?;
                         } else {
                             builder.attribute(prefix, local, value)?;
                         }
